@@ -217,6 +217,22 @@ func c03SignerInfoOfEnvelope(w *World, v ssa.Value, depth int) bool {
 	if d := desc(v); strings.HasSuffix(d, ".EnvelopeContent.SignerInfo") {
 		return true
 	}
+	// a local copy of the envelope's SignerInfo (whatever else happens to the copy, it was taken from the envelope)
+	if al, ok := v.(*ssa.Alloc); ok && al.Referrers() != nil {
+		n := 0
+		for _, r := range *al.Referrers() {
+			if st, ok := r.(*ssa.Store); ok && st.Addr == ssa.Value(al) {
+				if !strings.HasSuffix(desc(st.Val), ".EnvelopeContent.SignerInfo") {
+					return false
+				}
+				n++
+			}
+			if fa, ok := r.(*ssa.FieldAddr); ok && addrWritten(fa, 0) {
+				return false // a field of the copy is overwritten in this function
+			}
+		}
+		return n > 0
+	}
 	p, ok := v.(*ssa.Parameter)
 	if !ok || namedOf(p.Type()) != "core/signature.SignerInfo" {
 		return false
